@@ -69,6 +69,29 @@ P = {
          "Python ast rules: normal-form comparison, container read/write sets, lexical lock regions, argument binding", "4 C20"),
 }
 
+# clauses added in round 6 (DESIGN.md §15); appended to the decided text of the property
+R6 = {
+ "C01": "no ticker interval computed as a difference with elapsed time; a completion channel workers send on is never closed by the waiter",
+ "C02": "every accepting path has stored the session; the first datagram of an unknown peer is dispatched whatever its type; a new connection is dialled to the datagram's source address",
+ "C03": "gate table per direction of the QER entries; a range of exactly 100 ports is still expanded",
+ "C04": "the sessions entry of every PDR is in its batch; meters programmed and reset in the array of their kind; distinct SEID sequences per association; users of a shared object counted after the caller's own reference was dropped",
+ "C05": "a TEID is freed under the mark it was allocated under; the create write is given the session's own rule set; every BESS module command is a message of that module's kind",
+ "C06": "the allocation mark is set exactly where the pool allocated; the pool is keyed by the UP SEID at every parse site; DeallocIP at most once per session end",
+ "C07": "the reported UP F-SEID is session.localSEID",
+ "C08": "every Create/Update PDR is parsed into a value of its own; endpoint.ports is written by the port parser only; a new PFD entry owns its list",
+ "C09": "the stored PDR shares its QER list with the PDR that is programmed; the session label is written once, outside the search loop",
+ "C10": "the reader handles each message itself; every session-ending site removes the datapath entries and releases what the session holds; only the reader's read deadline decides that a peer went silent",
+ "C11": "crash obligations of every method of a shared object on the receive path; an ending association returns what it holds in the shared pools; worker completion channels never closed by the waiter",
+ "C13": "the limiter's key (UP SEID) is drawn from the connection's generator and tested against the store; the session copy the report handler reads is complete; apply-action flags are the IE's first octet",
+ "C14": "a deadline on the end-marker socket is armed per write; the SNDEM bit alone decides the flag",
+ "C15": "a request one of whose datapath writes was rejected is never accepted and the store is written after both writes; a removed rule is handed on as a copy; users counted after the own reference was dropped",
+ "C16": "only values that came out of a pool go back into it; a meter entry is written to the array its cell belongs to",
+ "C17": "users of a shared application entry counted after the own reference was dropped; width limit admits exactly 100 ports",
+ "C18": "every path of removeComments is the pattern's ReplaceAll of the input",
+ "C19": "every caller of addSliceMeter joins as many completions as it starts workers",
+ "C20": "the waiting route is appended before anything that can leave _probe_addr; no guard of the message parser refuses a prefix length in 0..32",
+}
+
 def main():
     built = set(subprocess.run([os.path.join(ROOT, "bin/upfcheck"), "-list"], capture_output=True, text=True).stdout.split())
     py_built = set()
@@ -77,6 +100,8 @@ def main():
     checks, na = [], []
     for pid in sorted(P):
         decided, notdec, tech, ref = P[pid]
+        if pid in R6:
+            decided += "; " + R6[pid]
         if pid in built or pid in py_built:
             cmd = f"./bin/upfcheck -prop {pid}"
             if pid in py_built and pid not in built:
